@@ -200,6 +200,7 @@ func (o *C01) AfterEnd(w *World) {
 // C11 — amounts credited, debited and paid out are exact.
 type C11 struct {
 	BaseOracle
+	tokenInfos []*mhub2types.TokenInfo
 	preBal    map[string]sdk.Int
 	preDigest [2][32]byte
 }
@@ -210,6 +211,7 @@ func (o *C11) BeforeTx(w *World, tx *PendingTx) {
 	switch tx.Kind {
 	case "user_send", "user_cancel", "req_batch":
 		st := w.ReadState()
+		o.tokenInfos = st.TokenInfos()
 		o.preBal = st.AllBalances()
 		o.preDigest = [2][32]byte{st.StoreDigest("bank"), st.StoreDigest("mhub2")}
 	}
@@ -298,7 +300,14 @@ func (o *C11) AfterTx(w *World, r *TxResult) {
 		w.Fail("C11", "scheduled", "missing", fmt.Sprintf("successful withdrawal request on %s left no new pool entry", ch))
 		return
 	}
-	rate, _ := new(big.Rat).SetString(tk.Commission)
+	// the configured rate is whatever governance last set (read from the stored token list as of the tx)
+	rateStr := tk.Commission
+	for _, ti := range o.tokenInfos {
+		if ti.ChainId == ch && ti.Denom == denom {
+			rateStr = ti.Commission.String()
+		}
+	}
+	rate, _ := new(big.Rat).SetString(rateStr)
 	// commission bounds in hub units: c <= floor(rate*(A+F)); c >= floor(rate*0.4*(A+F)) - slack
 	cMax := ratFloor(new(big.Rat).Mul(rate, new(big.Rat).SetInt(total)))
 	slack := new(big.Int).Add(new(big.Int).Quo(total, pow10(18)), big.NewInt(2))
@@ -341,7 +350,7 @@ func (o *C11) AfterTx(w *World, r *TxResult) {
 	}
 	w.St.Check("C11:commission")
 	if cLo.Cmp(cMax) > 0 {
-		w.Fail("C11", "commission", "above-rate", fmt.Sprintf("commission of at least %s charged on %s exceeds rate %s (max %s)", cLo, total, tk.Commission, cMax))
+		w.Fail("C11", "commission", "above-rate", fmt.Sprintf("commission of at least %s charged on %s exceeds rate %s (max %s)", cLo, total, rateStr, cMax))
 		return
 	}
 	if cHi.Cmp(cMin) < 0 {
@@ -356,7 +365,7 @@ func (o *C11) AfterTx(w *World, r *TxResult) {
 		lo := new(big.Int).Sub(expF, slack)
 		hi := new(big.Int).Add(expF, slack)
 		if cHi.Cmp(lo) < 0 || cLo.Cmp(hi) > 0 {
-			w.Fail("C11", "commission", "tier", fmt.Sprintf("commission in [%s,%s] charged on %s; rate %s with holder discount %s implies %s", cLo, cHi, total, tk.Commission, disc.FloatString(2), expF))
+			w.Fail("C11", "commission", "tier", fmt.Sprintf("commission in [%s,%s] charged on %s; rate %s with holder discount %s implies %s", cLo, cHi, total, rateStr, disc.FloatString(2), expF))
 			return
 		}
 		if disc.Sign() > 0 {
